@@ -206,6 +206,8 @@ abbrev Tables (τ : Type) := Nat → Table τ
 def Tables.set (T : Tables τ) (i : Nat) (t : Table τ) : Tables τ := fun j => if j = i then t else T j
 
 structure Flags where
+  /-- the shared `reserved` set of newPackage: names the user calls and declares outside derived.gen.go, and
+  (7ac80cc) the names of the derive calls that still wait for an argument's type in this pass -/
   reserved : List Name := []
   autoname : Bool := false
   dedup : Bool := false
